@@ -259,3 +259,10 @@ package xlsx
 //@   loop 3:
 //@     step model_cell_is_the_grid_cell: table.Rows[rowIdx - minRow][prev(colIdx) - minCol].Text == sheet.Rows[rowIdx][prev(colIdx)].Value && table.Rows[rowIdx - minRow][prev(colIdx) - minCol].RowSpan == sheet.Rows[rowIdx][prev(colIdx)].MergeRows && table.Rows[rowIdx - minRow][prev(colIdx) - minCol].ColSpan == sheet.Rows[rowIdx][prev(colIdx)].MergeCols
 //@     decreases maxCol + 1 - colIdx
+
+// ---- C17: a cell is empty only when it has no value at all: a cell holding white space still occupies its grid
+// position (and counts for the content bounds of the Markdown and document tables) ----
+//@ func (*Cell) IsEmpty results (r)
+//@   property C17
+//@   flags pure
+//@   ensures empty_means_no_value: r <==> (c.Type == CellTypeEmpty || c.Value == "")
